@@ -356,6 +356,12 @@ func (m *Model) evalCall(e *Expr, asValue bool) (Val, *mErr) {
 		}
 		m.store[args[0].S] = numV(args[1].N)
 		return Val{}, nil
+	case "prr":
+		if len(args) != 2 || args[0].K != 's' {
+			return Val{}, &mErr{what: "wrong arguments for prr"}
+		}
+		logCall()
+		return args[1], nil
 	case "pclr":
 		if err := want(""); err != nil {
 			return Val{}, err
